@@ -606,6 +606,16 @@ func (g *Graph) BlockOfStmt(s ast.Stmt, kind cfg.BlockKind) *cfg.Block {
 // start and leaves it (reaches a block whose originating statement lies outside the region, or an
 // exit) crosses an atom satisfying pass. Blocks without atoms are attributed by Block.Stmt.
 func (g *Graph) PassesWithin(start *cfg.Block, lo, hi token.Pos, pass func(ast.Node) bool) bool {
+	return g.passesWithin(start, lo, hi, pass, false)
+}
+
+// PassesWithinUnlessExit is PassesWithin, except that paths which end the function inside the region (return, panic)
+// are exempt: only paths that continue past the region must have crossed a passing atom.
+func (g *Graph) PassesWithinUnlessExit(start *cfg.Block, lo, hi token.Pos, pass func(ast.Node) bool) bool {
+	return g.passesWithin(start, lo, hi, pass, true)
+}
+
+func (g *Graph) passesWithin(start *cfg.Block, lo, hi token.Pos, pass func(ast.Node) bool, exitOK bool) bool {
 	seen := map[int32]bool{}
 	var walk func(b *cfg.Block) bool
 	walk = func(b *cfg.Block) bool {
@@ -631,7 +641,7 @@ func (g *Graph) PassesWithin(start *cfg.Block, lo, hi token.Pos, pass func(ast.N
 			}
 		}
 		if len(b.Succs) == 0 {
-			return false
+			return exitOK
 		}
 		for _, s := range b.Succs {
 			if !walk(s) {
